@@ -31,6 +31,8 @@ const MISSING_FLST: &[u8] = b"<missing_flst>";
 enum Body {
     Flst { be: bool, sty: u8, serial: u64, name: Vec<u8>, size: u64, nr: u64, bs: u64 },
     Flda { be: bool, sty: u8, sty2: u8, serial: u64, pnr: u64, raw_ti: u32, payload: Vec<u8> },
+    /// FLDA whose payload is described structurally: byte i = a + b*i (mod 256)
+    FldaPat { be: bool, sty: u8, sty2: u8, serial: u64, pnr: u64, raw_ti: u32, a: u8, b: u8, len: u32 },
     Flfi { be: bool, sty: u8, serial: u64 },
     /// explicit arguments (type_info, raw payload); all share the message's endianness
     Args { be: bool, args: Vec<(u32, Vec<u8>)> },
@@ -69,6 +71,9 @@ struct Intent {
     serial: u64,
     name: Vec<u8>,
     file: Vec<u8>,
+    /// large contents: the file is the concatenation of these linear patterns (then `file` is empty)
+    #[serde(default)]
+    pats: Vec<(u8, u8, u32)>,
     bs: u64,
     /// none | dup | drop_flfi  (must complete);  drop | swap | resize (must not complete);  drop_flst (complete => exact)
     fault: String,
@@ -82,6 +87,28 @@ struct CaseIn {
     /// run in a child process (announcements that may make the allocator abort)
     #[serde(default)]
     isolate: bool,
+    /// oracle-only probe of the pre-allocation cap: an announced transfer of nr packages of bs bytes
+    /// (nr * bs above MAX_PREALLOC_SIZE), run on the real code and compared with the original content;
+    /// far too large for the Coq side, whose shard entry is the empty log
+    #[serde(default)]
+    probe: Option<(u64, u64)>,
+}
+
+impl Intent {
+    fn content(&self) -> Vec<u8> {
+        if self.pats.is_empty() {
+            self.file.clone()
+        } else {
+            self.pats.iter().flat_map(|(a, b, l)| pat(*a, *b, *l as usize)).collect()
+        }
+    }
+    fn size(&self) -> u64 {
+        if self.pats.is_empty() {
+            self.file.len() as u64
+        } else {
+            self.pats.iter().map(|p| p.2 as u64).sum()
+        }
+    }
 }
 
 fn c4(s: &str) -> u32 {
@@ -115,6 +142,40 @@ fn enc_str(s: &[u8]) -> (u32, Vec<u8>) {
     v.push(0);
     (TI_STRG, v)
 }
+/// linear byte pattern (mirrors Exec/C17.v pat)
+fn pat(a: u8, b: u8, len: usize) -> Vec<u8> {
+    let mut v = Vec::with_capacity(len);
+    let mut x = a;
+    for _ in 0..len {
+        v.push(x);
+        x = x.wrapping_add(b);
+    }
+    v
+}
+/// the (a, b, len) of a payload that is such a pattern
+fn as_pat(p: &[u8]) -> Option<(u8, u8, u32)> {
+    if p.is_empty() {
+        return None;
+    }
+    let a = p[0];
+    let b = if p.len() > 1 { p[1].wrapping_sub(p[0]) } else { 0 };
+    if pat(a, b, p.len()) == p {
+        Some((a, b, p.len() as u32))
+    } else {
+        None
+    }
+}
+/// large FLDA payloads that follow a linear pattern are described structurally (keeps the Coq shards and the replay files small)
+fn compress(m: &Msg) -> Msg {
+    if let Body::Flda { be, sty, sty2, serial, pnr, raw_ti, payload } = &m.body {
+        if payload.len() > 24 {
+            if let Some((a, b, len)) = as_pat(payload) {
+                return Msg { body: Body::FldaPat { be: *be, sty: *sty, sty2: *sty2, serial: *serial, pnr: *pnr, raw_ti: *raw_ti, a, b, len }, ..m.clone() };
+            }
+        }
+    }
+    m.clone()
+}
 /// the argument list a body stands for (mirrors Exec/C17.v expand_body)
 fn expand(b: &Body) -> (bool, Vec<(u32, Vec<u8>)>) {
     match b {
@@ -126,6 +187,10 @@ fn expand(b: &Body) -> (bool, Vec<(u32, Vec<u8>)>) {
             *be,
             vec![enc_str(b"FLDA"), enc_int(*be, *sty, *serial), enc_int(*be, *sty2, *pnr), (*raw_ti, payload.clone()), enc_str(b"FLDA")],
         ),
+        Body::FldaPat { be, sty, sty2, serial, pnr, raw_ti, a, b, len } => (
+            *be,
+            vec![enc_str(b"FLDA"), enc_int(*be, *sty, *serial), enc_int(*be, *sty2, *pnr), (*raw_ti, pat(*a, *b, *len as usize)), enc_str(b"FLDA")],
+        ),
         Body::Flfi { be, sty, serial } => (*be, vec![enc_str(b"FLFI"), enc_int(*be, *sty, *serial), enc_str(b"FLFI")]),
         Body::Args { be, args } => (*be, args.clone()),
     }
@@ -133,7 +198,7 @@ fn expand(b: &Body) -> (bool, Vec<(u32, Vec<u8>)>) {
 fn natural_noar(b: &Body) -> u8 {
     match b {
         Body::Flst { .. } => 8,
-        Body::Flda { .. } => 5,
+        Body::Flda { .. } | Body::FldaPat { .. } => 5,
         Body::Flfi { .. } => 3,
         Body::Args { args, .. } => args.len().min(255) as u8,
     }
@@ -440,6 +505,17 @@ fn run_impl_inner(c: &CaseIn) -> RunObs {
     RunObs { rets, generation, items, files, problems }
 }
 
+/// file contents in the observation (mirrors Exec/C17.v o_blob): literal up to 48 bytes, else length, checksum, head, tail
+fn blob(d: &[u8]) -> O {
+    if d.len() <= 48 {
+        return O::bytes(d);
+    }
+    let mut h: u64 = 7;
+    for b in d {
+        h = (h * 131 + *b as u64 + 1) % 4294967291;
+    }
+    O::T(vec![O::n(d.len() as u64), O::n(h), O::bytes(&d[..8]), O::bytes(&d[d.len() - 8..])])
+}
 fn obs_tree(r: &Result<RunObs, String>) -> O {
     match r {
         Err(_) => O::T(vec![O::L(1)]),
@@ -463,11 +539,11 @@ fn obs_tree(r: &Result<RunObs, String>) -> O {
                         O::n(i.nr),
                         O::opt(i.saved_to.as_ref().map(|b| O::bytes(b))),
                         O::opt(i.basename.as_ref().map(|b| O::bytes(b))),
-                        O::opt(i.bytes.as_ref().map(|b| O::bytes(b))),
+                        O::opt(i.bytes.as_ref().map(|b| blob(b))),
                     ])
                 })
                 .collect()),
-            O::T(o.files.iter().map(|(p, d)| O::T(vec![O::bytes(p), O::bytes(d)])).collect()),
+            O::T(o.files.iter().map(|(p, d)| O::T(vec![O::bytes(p), blob(d)])).collect()),
         ]),
     }
 }
@@ -536,7 +612,7 @@ fn oracle(c: &CaseIn, r: &Result<RunObs, String>) -> Verdict {
                     return fail("damaged_saved", format!("file {:?} saved for a transfer that is not complete", String::from_utf8_lossy(&f.0)));
                 }
                 if let Some(int) = c.intents.iter().find(|t| t.ecu == i.ecu && t.lc as u64 == i.lc && t.serial == i.serial) {
-                    if int.file != f.1 {
+                    if int.content() != f.1 {
                         return fail("damaged_saved", format!("auto-saved {:?} differs from the transferred file", String::from_utf8_lossy(&f.0)));
                     }
                 }
@@ -552,17 +628,18 @@ fn oracle(c: &CaseIn, r: &Result<RunObs, String>) -> Verdict {
         }
     }
     for t in &c.intents {
+        let t_file = t.content();
         let mine: Vec<&Item> = o.items.iter().filter(|i| i.ecu == t.ecu && i.lc == t.lc as u64 && i.serial == t.serial).collect();
         let complete: Vec<&&Item> = mine.iter().filter(|i| i.state == 2).collect();
         // whatever happened: a complete transfer's bytes are the file, bit-exactly
         for i in &complete {
             if let Some(b) = &i.bytes {
-                if b != &t.file {
-                    return fail("complete_exact", format!("serial {} complete with {} bytes that differ from the file ({} bytes), fault {}", t.serial, b.len(), t.file.len(), t.fault));
+                if b != &t_file {
+                    return fail("complete_exact", format!("serial {} complete with {} bytes that differ from the file ({} bytes), fault {}", t.serial, b.len(), t_file.len(), t.fault));
                 }
             }
-            if i.size != t.file.len() as u64 {
-                return fail("complete_exact", format!("serial {} complete with size {} for a file of {} bytes", t.serial, i.size, t.file.len()));
+            if i.size != t_file.len() as u64 {
+                return fail("complete_exact", format!("serial {} complete with size {} for a file of {} bytes", t.serial, i.size, t_file.len()));
             }
         }
         match t.fault.as_str() {
@@ -599,6 +676,7 @@ fn coq_body(b: &Body) -> String {
     match b {
         Body::Flst { be, sty, serial, name, size, nr, bs } => format!("BFlst {} {} {} {} {} {} {}", cbool(*be), sty, serial, cbytes(name), size, nr, bs),
         Body::Flda { be, sty, sty2, serial, pnr, raw_ti, payload } => format!("BFlda {} {} {} {} {} {} {}", cbool(*be), sty, sty2, serial, pnr, raw_ti, cbytes(payload)),
+        Body::FldaPat { be, sty, sty2, serial, pnr, raw_ti, a, b, len } => format!("BFldaPat {} {} {} {} {} {} {} {} {}", cbool(*be), sty, sty2, serial, pnr, raw_ti, a, b, len),
         Body::Flfi { be, sty, serial } => format!("BFlfi {} {} {}", cbool(*be), sty, serial),
         Body::Args { be, args } => format!("BArgs {}", clist(&args.iter().map(|(ti, raw)| format!("({}, {}, {})", ti, cbool(*be), cbytes(raw))).collect::<Vec<_>>())),
     }
@@ -649,22 +727,34 @@ fn glob_table(c: &CaseIn) -> Option<Vec<Vec<u8>>> {
 
 fn record(sink: &mut Sink, family: &str, c0: CaseIn) {
     // normalise the messages first (the model reads decoded arguments)
-    let c = CaseIn { msgs: c0.msgs.iter().map(normalise).collect(), ..c0 };
+    let c = CaseIn { msgs: c0.msgs.iter().map(|m| normalise(&compress(m))).collect(), ..c0 };
     let r = run_impl(&c);
-    let verdict = oracle(&c, &r);
+    let mut verdict = oracle(&c, &r);
+    if let Some((nr, bs)) = c.probe {
+        if let Verdict::Ok = verdict {
+            verdict = prealloc_probe(nr, bs);
+        }
+    }
     let obs = obs_tree(&r);
     let tbl = glob_table(&c);
     let input_coq = coq_case(&c, &tbl);
     let mut tags = vec![format!("family_{}", family), format!("transfers{}", c.intents.len().min(5))];
+    if c.probe.is_some() {
+        tags.push("oracle_only_prealloc_probe".into());
+    }
     for t in &c.intents {
         tags.push(format!("fault_{}", t.fault));
-        let n = (t.file.len() as u64 + t.bs - 1) / t.bs.max(1);
+        let n = (t.size() + t.bs - 1) / t.bs.max(1);
+        tags.push(format!("filesize_{}", match t.size() { 0..=64 => "le64", 65..=511 => "65_511", 512 => "512", 513..=1023 => "513_1023", 1024..=4095 => "1K_4K", _ => "ge4K" }));
+        if t.fault == "drop_flst" && t.size() > 512 {
+            tags.push("recovered_gt512".into());
+        }
         if t.bs == 1 {
             tags.push("pkgsize1".into());
         }
-        if t.bs >= t.file.len() as u64 {
+        if t.bs >= t.size() {
             tags.push("pkgsize_ge_file".into());
-        } else if t.file.len() as u64 % t.bs != 0 {
+        } else if t.size() % t.bs != 0 {
             tags.push("last_shorter".into());
         }
         if t.name.contains(&b'/') {
@@ -693,7 +783,7 @@ fn record(sink: &mut Sink, family: &str, c0: CaseIn) {
     }
     tags.sort();
     tags.dedup();
-    let nontrivial = c.intents.iter().any(|t| t.file.len() as u64 > t.bs) || c.intents.len() >= 2;
+    let nontrivial = c.intents.iter().any(|t| t.size() > t.bs) || c.intents.len() >= 2;
     let id = sink.next_id();
     sink.push(Case { id, input_coq: input_coq.clone(), input_json: serde_json::to_value(&c).unwrap(), obs, verdict, classes: vec![], tags, nontrivial, key: input_coq });
 }
@@ -787,7 +877,15 @@ fn transfer_msgs(p: &Plan, f: &Fault) -> Vec<Msg> {
     v
 }
 fn intent(p: &Plan, f: &Fault) -> Intent {
-    Intent { ecu: p.ecu, lc: p.lc, serial: p.serial, name: p.name.clone(), file: p.file.clone(), bs: p.bs, fault: fault_name(f).into() }
+    let mut i = Intent { ecu: p.ecu, lc: p.lc, serial: p.serial, name: p.name.clone(), file: p.file.clone(), pats: vec![], bs: p.bs, fault: fault_name(f).into() };
+    if p.file.len() > 64 {
+        let pats: Vec<Option<(u8, u8, u32)>> = p.file.chunks(p.bs as usize).map(as_pat).collect();
+        if pats.iter().all(|x| x.is_some()) {
+            i.pats = pats.into_iter().map(|x| x.unwrap()).collect();
+            i.file = vec![];
+        }
+    }
+    i
 }
 fn all_faults(n: usize) -> Vec<Fault> {
     let mut v = vec![Fault::None, Fault::DropFlst, Fault::DropFlfi];
@@ -989,7 +1087,7 @@ fn gen_scenario(rng: &mut Rng, big: bool) -> CaseIn {
     }
     let noise = rng.below(4);
     let msgs = if rng.chance(1, 5) { seqs.concat() } else { interleave(rng, seqs, &plans, noise, cfg.apid.is_some()) };
-    CaseIn { cfg, msgs, intents, isolate: false }
+    CaseIn { cfg, msgs, intents, isolate: false, probe: None }
 }
 
 /// malformed / adversarial streams: no intents, the oracle only checks crash freedom and the file system rules
@@ -1052,7 +1150,7 @@ fn gen_malformed(rng: &mut Rng) -> CaseIn {
         let ext = if rng.chance(1, 12) { None } else { Some((c4(*rng.pick(&["APID", "APID", "APIX"])), c4("CTID"), vmm, noar)) };
         msgs.push(Msg { ecu, lc, ext, body });
     }
-    CaseIn { cfg, msgs, intents: vec![], isolate: false }
+    CaseIn { cfg, msgs, intents: vec![], isolate: false, probe: None }
 }
 
 /// announcements with huge sizes (pre-allocation from announced sizes); run isolated
@@ -1078,7 +1176,7 @@ fn huge_cases() -> Vec<CaseIn> {
                 mk(Body::Flda { be: false, sty: 3, sty2: 3, serial: 5, pnr: 1, raw_ti: TI_RAWD, payload: vec![1, 2] }, 5),
                 mk(Body::Flfi { be: false, sty: 3, serial: 5 }, 3),
             ];
-            v.push(CaseIn { cfg, msgs, intents: vec![], isolate: true });
+            v.push(CaseIn { cfg, msgs, intents: vec![], isolate: true, probe: None });
         }
     }
     v
@@ -1088,7 +1186,7 @@ fn corpus(sink: &mut Sink) {
     // DESIGN Appendix A, C17-1: 3 packages of 2 bytes, FLDA 1,2,2,3
     let p = simple_plan(17, b"test_file.bin", vec![1, 2, 3, 4, 5, 6], 2);
     for f in [Fault::Dup(2, 2), Fault::None, Fault::Dup(1, 1), Fault::Dup(1, 3), Fault::Dup(3, 3)] {
-        record(sink, "corpus", CaseIn { cfg: std_cfg(), msgs: transfer_msgs(&p, &f), intents: vec![intent(&p, &f)], isolate: false });
+        record(sink, "corpus", CaseIn { cfg: std_cfg(), msgs: transfer_msgs(&p, &f), intents: vec![intent(&p, &f)], isolate: false, probe: None });
     }
     // duplicate in a transfer whose announcement was lost (all packages of equal size)
     {
@@ -1096,7 +1194,7 @@ fn corpus(sink: &mut Sink) {
         m.remove(0);
         let mut i = intent(&p, &Fault::Dup(2, 2));
         i.fault = "drop_flst".into();
-        record(sink, "corpus", CaseIn { cfg: std_cfg(), msgs: m, intents: vec![i], isolate: false });
+        record(sink, "corpus", CaseIn { cfg: std_cfg(), msgs: m, intents: vec![i], isolate: false, probe: None });
     }
     // the repository's unit tests: recovered transfer (FLDA with a string payload + FLFI), regular transfer, auto save
     {
@@ -1108,17 +1206,17 @@ fn corpus(sink: &mut Sink) {
             let mut cfg = std_cfg();
             cfg.allow_save = allow;
             cfg.keep_flda = !allow;
-            record(sink, "corpus", CaseIn { cfg, msgs: vec![m1.clone(), m2.clone()], intents: vec![], isolate: false });
+            record(sink, "corpus", CaseIn { cfg, msgs: vec![m1.clone(), m2.clone()], intents: vec![], isolate: false, probe: None });
         }
         let p1 = Plan { bs: 512, ..simple_plan(17, b"test_file.bin", b"data".to_vec(), 512) };
-        record(sink, "corpus", CaseIn { cfg: std_cfg(), msgs: transfer_msgs(&p1, &Fault::None), intents: vec![intent(&p1, &Fault::None)], isolate: false });
+        record(sink, "corpus", CaseIn { cfg: std_cfg(), msgs: transfer_msgs(&p1, &Fault::None), intents: vec![intent(&p1, &Fault::None)], isolate: false, probe: None });
         let p2 = Plan { name: b"/tmp/test_file.bin".to_vec(), ..p1.clone() };
         let mut cfg = autosave_cfg(false, "**/test_*.*", "");
         cfg.keep_flda = true;
-        record(sink, "corpus", CaseIn { cfg: cfg.clone(), msgs: transfer_msgs(&p2, &Fault::None), intents: vec![intent(&p2, &Fault::None)], isolate: false });
+        record(sink, "corpus", CaseIn { cfg: cfg.clone(), msgs: transfer_msgs(&p2, &Fault::None), intents: vec![intent(&p2, &Fault::None)], isolate: false, probe: None });
         // the same with the target already present: nothing may be written
         cfg.pre = vec![(b"test_file.bin".to_vec(), b"old".to_vec())];
-        record(sink, "corpus", CaseIn { cfg, msgs: transfer_msgs(&p2, &Fault::None), intents: vec![intent(&p2, &Fault::None)], isolate: false });
+        record(sink, "corpus", CaseIn { cfg, msgs: transfer_msgs(&p2, &Fault::None), intents: vec![intent(&p2, &Fault::None)], isolate: false, probe: None });
     }
     // every name of the table through auto save (allowSave on and off), two transfers so that equal base names collide
     for (k, name) in NAMES.iter().enumerate() {
@@ -1134,7 +1232,7 @@ fn corpus(sink: &mut Sink) {
             if k % 5 == 2 {
                 cfg.dir_missing = true;
             }
-            record(sink, "names", CaseIn { cfg, msgs, intents: vec![intent(&pa, &Fault::None), intent(&pb, &Fault::None)], isolate: false });
+            record(sink, "names", CaseIn { cfg, msgs, intents: vec![intent(&pa, &Fault::None), intent(&pb, &Fault::None)], isolate: false, probe: None });
         }
     }
     // re-announcement of a running transfer's key, announcement after a recovered (MissingStart) transfer
@@ -1142,29 +1240,29 @@ fn corpus(sink: &mut Sink) {
         let p = simple_plan(9, b"re.bin", vec![1, 2, 3, 4], 2);
         let t = transfer_msgs(&p, &Fault::None);
         let msgs = vec![t[0].clone(), t[1].clone(), t[0].clone(), t[1].clone(), t[2].clone(), t[3].clone()];
-        record(sink, "corpus", CaseIn { cfg: std_cfg(), msgs, intents: vec![], isolate: false });
+        record(sink, "corpus", CaseIn { cfg: std_cfg(), msgs, intents: vec![], isolate: false, probe: None });
         let msgs = vec![t[1].clone(), t[0].clone(), t[1].clone(), t[2].clone(), t[3].clone(), t[3].clone()];
-        record(sink, "corpus", CaseIn { cfg: std_cfg(), msgs, intents: vec![], isolate: false });
+        record(sink, "corpus", CaseIn { cfg: std_cfg(), msgs, intents: vec![], isolate: false, probe: None });
         // end marker twice, packages after completion
         let msgs = vec![t[0].clone(), t[1].clone(), t[2].clone(), t[3].clone(), t[3].clone(), t[2].clone(), t[1].clone()];
-        record(sink, "corpus", CaseIn { cfg: std_cfg(), msgs, intents: vec![intent(&p, &Fault::None)], isolate: false });
+        record(sink, "corpus", CaseIn { cfg: std_cfg(), msgs, intents: vec![intent(&p, &Fault::None)], isolate: false, probe: None });
         // announced size 0
         let mut t0 = t.clone();
         if let Body::Flst { size, .. } = &mut t0[0].body {
             *size = 0;
         }
-        record(sink, "corpus", CaseIn { cfg: std_cfg(), msgs: t0, intents: vec![], isolate: false });
+        record(sink, "corpus", CaseIn { cfg: std_cfg(), msgs: t0, intents: vec![], isolate: false, probe: None });
         // disabled plugin
         let mut cfg = std_cfg();
         cfg.enabled = false;
-        record(sink, "corpus", CaseIn { cfg, msgs: t.clone(), intents: vec![], isolate: false });
+        record(sink, "corpus", CaseIn { cfg, msgs: t.clone(), intents: vec![], isolate: false, probe: None });
         // filters that do not match / message without extended header
         let mut cfg = std_cfg();
         cfg.apid = Some(c4("APIX"));
-        record(sink, "corpus", CaseIn { cfg, msgs: t.clone(), intents: vec![], isolate: false });
+        record(sink, "corpus", CaseIn { cfg, msgs: t.clone(), intents: vec![], isolate: false, probe: None });
         let mut cfg = std_cfg();
         cfg.ctid = Some(c4("CTIX"));
-        record(sink, "corpus", CaseIn { cfg, msgs: t.clone(), intents: vec![], isolate: false });
+        record(sink, "corpus", CaseIn { cfg, msgs: t.clone(), intents: vec![], isolate: false, probe: None });
     }
     for c in huge_cases() {
         record(sink, "huge", c);
@@ -1186,7 +1284,7 @@ fn sweep(sink: &mut Sink, rng: &mut Rng, max_n: usize) {
                     let p = Plan { be: serial % 5 == 0, ..simple_plan(serial, b"sweep.bin", file_bytes(rng, len as usize), bs) };
                     let mut cfg = std_cfg();
                     cfg.keep_flda = serial % 3 == 0;
-                    record(sink, "sweep", CaseIn { cfg, msgs: transfer_msgs(&p, &f), intents: vec![intent(&p, &f)], isolate: false });
+                    record(sink, "sweep", CaseIn { cfg, msgs: transfer_msgs(&p, &f), intents: vec![intent(&p, &f)], isolate: false, probe: None });
                 }
             }
         }
@@ -1215,7 +1313,166 @@ fn all_interleavings(sink: &mut Sink) {
                 j += 1;
             }
         }
-        record(sink, "interleavings", CaseIn { cfg: std_cfg(), msgs, intents: vec![intent(&pa, &Fault::None), intent(&pb, &Fault::None)], isolate: false });
+        record(sink, "interleavings", CaseIn { cfg: std_cfg(), msgs, intents: vec![intent(&pa, &Fault::None), intent(&pb, &Fault::None)], isolate: false, probe: None });
+    }
+}
+
+// ------------------------------------------------------------------ what is counted vs what is stored: sizes far beyond the small constants
+/// file of n packages of bs bytes (the last one `last` bytes), every package its own linear pattern
+fn pattern_file(rng: &mut Rng, n: u64, bs: u64, last: u64) -> Vec<u8> {
+    let mut v = vec![];
+    for j in 0..n {
+        let len = if j + 1 == n { last } else { bs };
+        v.extend(pat(rng.below(256) as u8, (rng.below(255) + 1) as u8, len as usize));
+    }
+    v
+}
+fn sized_cfg(k: u64) -> Cfg {
+    let mut cfg = std_cfg();
+    cfg.keep_flda = k % 4 == 1;
+    match k % 6 {
+        2 => cfg = Cfg { keep_flda: cfg.keep_flda, ..autosave_cfg(true, "*", "") },
+        4 => cfg = Cfg { keep_flda: cfg.keep_flda, ..autosave_cfg(false, "*", "/") },
+        5 => cfg.apid = None,
+        _ => {}
+    }
+    cfg
+}
+/// transfers whose announcement is lost (equal-sized packages: the only way such a transfer completes) and announced
+/// transfers with many / large packages; total sizes sweep across 512, 1024, 4096 and beyond
+fn sized_cases(sink: &mut Sink, rng: &mut Rng, tier: &str) {
+    let mut k = 0u64;
+    let mut serial = 5000u64;
+    let mut one = |sink: &mut Sink, rng: &mut Rng, n: u64, bs: u64, last: u64, f: Fault, with_contrast: bool, k: u64| {
+        serial += 2;
+        let file = pattern_file(rng, n, bs, last);
+        let name: &[u8] = if k % 2 == 0 { b"sized.bin" } else { b"d/e/sized.bin" };
+        let p = Plan { be: k % 3 == 0, raw_ti: if k % 7 == 3 { TI_STRG } else { TI_RAWD }, ..simple_plan(serial, name, file.clone(), bs) };
+        let cfg = sized_cfg(k);
+        let mut seqs = vec![transfer_msgs(&p, &f)];
+        let mut intents = vec![intent(&p, &f)];
+        let mut plans = vec![p.clone()];
+        if with_contrast {
+            // the same content as a regular announced transfer with another key, interleaved
+            let q = Plan { serial: serial + 1, ecu: c4("ECU2"), name: b"contrast.bin".to_vec(), ..p.clone() };
+            seqs.push(transfer_msgs(&q, &Fault::None));
+            intents.push(intent(&q, &Fault::None));
+            plans.push(q);
+        }
+        let msgs = if seqs.len() == 1 && k % 2 == 0 { seqs.concat() } else { interleave(rng, seqs, &plans, k % 3, cfg.apid.is_some()) };
+        record(sink, "sized", CaseIn { cfg, msgs, intents, isolate: false, probe: None });
+    };
+    let quick = tier == "quick";
+    // lost announcement: n equal packages of bs bytes
+    let bss: &[u64] = &[1, 2, 7, 64, 127, 128, 129, 170, 171, 255, 256, 257, 511, 512, 513, 1023, 1024, 1025, 2048, 4096, 4097];
+    let ns: &[u64] = if quick { &[1, 2, 3, 4, 8] } else { &[1, 2, 3, 4, 5, 8, 16] };
+    for bs in bss {
+        for n in ns {
+            if n * bs > 16500 {
+                continue;
+            }
+            k += 1;
+            one(sink, rng, *n, *bs, *bs, Fault::DropFlst, k % 5 == 0, k);
+        }
+    }
+    // many small packages crossing the same totals
+    for (n, bs) in [(64u64, 8u64), (40, 13), (20, 26), (64, 16), (40, 26), (33, 31), (17, 61), (48, 86)] {
+        k += 1;
+        one(sink, rng, n, bs, bs, Fault::DropFlst, k % 2 == 0, k);
+    }
+    // announced transfers: many packages, package sizes up to a few KiB, last full or shorter, with and without a fault
+    let shapes: &[(u64, u64)] = &[(2, 300), (3, 256), (5, 512), (8, 100), (8, 1000), (17, 64), (17, 1024), (40, 128), (40, 513), (4, 4096), (6, 2048), (3, 4097), (12, 1025), (9, 511)];
+    for (n, bs) in shapes {
+        for variant in 0..(if quick { 2 } else { 4 }) {
+            k += 1;
+            let last = if variant % 2 == 0 { *bs } else { rng.range(1, *bs - 1) };
+            let f = match variant {
+                0 | 1 => Fault::None,
+                _ => {
+                    let fs: Vec<Fault> = all_faults(*n as usize).into_iter().filter(|f| !matches!(f, Fault::Resize(_, true))).collect();
+                    rng.pick(&fs).clone()
+                }
+            };
+            one(sink, rng, *n, *bs, last, f, k % 4 == 0, k);
+        }
+    }
+    // random mixes
+    let n_rand = match tier {
+        "quick" => 40,
+        "search" => 150,
+        _ => 400,
+    };
+    for _ in 0..n_rand {
+        k += 1;
+        let n = rng.range(1, 12);
+        let bs = *rng.pick(&[1u64, 3, 50, 100, 128, 200, 256, 300, 500, 512, 600, 1000, 1500]);
+        let lost = rng.chance(1, 2);
+        let last = if lost || rng.chance(1, 2) { bs } else { rng.range(1, bs) };
+        let f = if lost { Fault::DropFlst } else { gen_fault(rng, n as usize) };
+        let f = if matches!(f, Fault::Resize(_, true)) { Fault::None } else { f };
+        let contrast = rng.chance(1, 2);
+        one(sink, rng, n, bs, last, f, contrast, k);
+    }
+}
+
+/// one probe of the pre-allocation cap: announced transfer larger than MAX_PREALLOC_SIZE (64 MiB); returns the verdict
+fn prealloc_probe(nr: u64, bs: u64) -> Verdict {
+    let fail = |cl: &str, d: String| Verdict::Fail { clause: cl.into(), detail: d };
+    let r = catch_loc(move || {
+        let j = json!({"name": "ft", "allowSave": true});
+        let mut p = FileTransferPlugin::from_json(j.as_object().unwrap()).expect("plugin config");
+        let mk = |body: Body, noar: u8| Msg { ecu: c4("ECU1"), lc: 0, ext: Some((c4("APID"), c4("CTID"), 0x41, noar)), body };
+        let mut dm = build_msg(0, &mk(Body::Flst { be: false, sty: 3, serial: 9, name: b"big.bin".to_vec(), size: nr * bs, nr, bs }, 8));
+        p.process_msg(&mut dm);
+        for jn in 1..=nr {
+            let mut dm = build_msg(jn as u32, &mk(Body::FldaPat { be: false, sty: 3, sty2: 6, serial: 9, pnr: jn, raw_ti: TI_RAWD, a: (jn % 251) as u8, b: (jn % 7 + 1) as u8, len: bs as u32 }, 5));
+            p.process_msg(&mut dm);
+        }
+        let mut dm = build_msg(0, &mk(Body::Flfi { be: false, sty: 3, serial: 9 }, 3));
+        p.process_msg(&mut dm);
+        let state = p.state();
+        let state = state.read().unwrap();
+        let tree = state.value["treeItems"].as_array().cloned().unwrap_or_default();
+        let complete = tree.len() == 2 && tree[1]["iconPath"].as_str() == Some("file");
+        let tmp = tempfile::NamedTempFile::new().unwrap();
+        let params = json!({"saveAs": tmp.path().to_str().unwrap()});
+        let ctx = json!({"save": {"idx": 0}});
+        let ok = match state.apply_command {
+            Some(f) => f(&state.internal_data, "save", params.as_object(), ctx.as_object()),
+            None => false,
+        };
+        let saved = if ok { Some(std::fs::read(tmp.path()).unwrap_or_default()) } else { None };
+        // compare with the original, package by package
+        let mut problem = None;
+        if let Some(d) = &saved {
+            if d.len() as u64 != nr * bs {
+                problem = Some(format!("saved {} bytes, original {} bytes", d.len(), nr * bs));
+            } else {
+                for jn in 1..=nr {
+                    let want = pat((jn % 251) as u8, (jn % 7 + 1) as u8, bs as usize);
+                    let off = ((jn - 1) * bs) as usize;
+                    if d[off..off + bs as usize] != want[..] {
+                        problem = Some(format!("saved content differs in package {}", jn));
+                        break;
+                    }
+                }
+            }
+        }
+        (complete, saved.is_some(), problem)
+    });
+    match r {
+        Err(e) => fail("no_panic", e),
+        Ok((complete, has, problem)) => {
+            if !complete {
+                fail("inorder_complete", format!("announced transfer of {} x {} bytes in order not reported complete", nr, bs))
+            } else if !has {
+                fail("inorder_complete", "complete but cannot be saved".into())
+            } else if let Some(p) = problem {
+                fail("complete_exact", format!("transfer of {} x {} bytes reported complete but {}", nr, bs, p))
+            } else {
+                Verdict::Ok
+            }
+        }
     }
 }
 
@@ -1228,7 +1485,7 @@ fn main() {
     }
     let a = parse_args();
     let mut sink = Sink::new("C17", &a.out);
-    sink.shard_size = 60;
+    sink.shard_size = 40;
     if let Some(p) = &a.replay {
         let v = read_replay(p);
         let c: CaseIn = serde_json::from_value(v["case"].clone()).expect("case");
@@ -1251,6 +1508,11 @@ fn main() {
         all_interleavings(&mut sink);
     }
     sweep(&mut sink, &mut rng, sweep_n);
+    sized_cases(&mut sink, &mut rng, &a.tier);
+    if a.tier != "search" && std::env::var("C17_NO_PREALLOC_PROBE").is_err() {
+        // 1040 packages of 65000 bytes = 64.5 MiB, just above the 64 MiB pre-allocation cap
+        record(&mut sink, "prealloc_probe", CaseIn { cfg: std_cfg(), msgs: vec![], intents: vec![], isolate: false, probe: Some((1040, 65000)) });
+    }
     for _ in 0..n_scen {
         let c = gen_scenario(&mut rng, a.tier != "quick");
         record(&mut sink, "scenario", c);
